@@ -21,9 +21,10 @@ import itertools
 
 from ..core import Siblings, WholeFloats, Sub, fail, lit, isnum, scale
 
-# delivery-channel differential (core.Env): of every 2 evaluations that bind variables, one is repeated with the
-# values handed in by the cell/range listeners and one with the values returned by custom functions; outcomes must agree
-CHANNELS = 2
+# delivery-channel and host-type differential (core.Env): of every 3 evaluations that bind variables, one is repeated with the
+# values handed in by the cell/range listeners, one with the values returned by custom functions and one with every value an
+# instance of a trivial subclass of its type (numpy.float64, IntEnum, rich-text str ... are such); outcomes must agree
+CHANNELS = 3
 
 BOUNDS = {
     'quick': 'INDEX: every nested array R x C with R,C <= 4 (numeric and text, position-coded elements) as '
